@@ -286,8 +286,10 @@ def core_profiles(extra=None, n=10, steps=40):
          dict(n=n, steps=steps + 10, backend="mixed", regime="causal", retention=2, profile="members"),
          dict(n=n, steps=steps + 10, backend="sql", regime="causal", profile="members", groups=2),
          dict(n=12, backend="mixed", profile="fork"),
-         dict(n=8, backend="mixed", profile="props")]
+         dict(n=8, backend="mixed", profile="props"),
+         dict(n=6, backend="mixed", profile="rejoin")]
     t = [dict(n=60, backend=["mem", "sql", "mixed"][i % 3], profile="fork", retention=[5, 3, 6][i % 3]) for i in range(3)]
+    t += [dict(n=60, backend=["mixed", "sql", "mem"][i % 3], profile="rejoin", retention=[5, 2, 3][i % 3]) for i in range(3)]
     t += [dict(n=60, backend=["mem", "sql", "mixed"][i % 3], profile="props", restarts=i % 2, retention=[5, 2, 3][i % 3]) for i in range(3)]
     for i in range(10):
         t.append(dict(n=50, steps=60, backend=["mem", "sql", "mixed"][i % 3], regime="causal",
